@@ -51,8 +51,21 @@ def run(env, tier, seed, broken=None):
         {'id': 'probe-cyclic-object-print', 'src': '%s o = {k: 1};\no.k = o;\n%s o;\n' % (VAR, PRINT), 'timeout_ms': 20000},
         {'id': 'probe-cyclic-echo-in-concat', 'src': '%s a = [1];\na[0] = a;\n%s "x" + 1;\n%s a == a;\n' % (VAR, PRINT, PRINT)},
     ]
+    # long but legal executions (beyond what the model runs within its budget: implementation-only, the expected output is
+    # computed here): millions of iterations with continue / break / calls in while and for loops must not exhaust anything
+    longs = [
+        ('long-while-continue', '%s i = 0; %s s = 0;\n%s (i < 1500000) { i = i + 1; %s (i %% 2 == 0) { %s; } s = s + 1; }\n%s s;\n' % (VAR, VAR, WHILE, IF, CONTINUE, PRINT), '750000\n'),
+        ('long-for-continue', '%s s = 0;\n%s (%s i = 0; i < 1500000; i = i + 1) { %s (i %% 3 == 0) { %s; } s = s + 1; }\n%s s;\n' % (VAR, FOR, VAR, IF, CONTINUE, PRINT), '1e+06\n'),
+        ('long-calls-in-loop', '%s f(x) { %s (x %% 2 == 0) { %s 1; } %s 0; }\n%s s = 0; %s i = 0;\n%s (i < 600000) { i = i + 1; s = s + f(i); }\n%s s;\n' % (FUN, IF, RETURN, RETURN, VAR, VAR, WHILE, PRINT), '300000\n'),
+        ('long-nested-break', '%s s = 0;\n%s (%s i = 0; i < 3000; i = i + 1) { %s j = 0; %s (%s) { j = j + 1; %s (j > 300) { %s; } %s (j %% 2 == 1) { %s; } s = s + 1; } }\n%s s;\n' % (VAR, FOR, VAR, VAR, WHILE, TRUE, IF, BREAK, IF, CONTINUE, PRINT), '450000\n'),
+    ]
+    for pid_, src_, want_ in longs:
+        probes.append({'id': 'probe-' + pid_, 'src': src_, 'timeout_ms': 120000, 'want': want_})
     gcs = [core.file_case(p['id'], p['src'], '', timeout_ms=p.get('timeout_ms', 0))[0] for p in probes]
     rp = env.run_impl(gcs, timeout_ms=20000)
+    for p in probes:
+        if 'want' in p and not rp[p['id']][0]['timeout'] and rp[p['id']][0]['status'] == 0 and rp[p['id']][0]['stdout'].decode() != p['want']:
+            mism.append({'case': p, 'reason': 'a long loop computed %r, expected %r' % (rp[p['id']][0]['stdout'][:40], p['want'])})
     nontriv = set()
     allres = [(c, ri[c['id']][0]) for c in cases] + [(p, rp[p['id']][0]) for p in probes]
     for c, r in allres:
